@@ -11,14 +11,18 @@ type TreeContext struct {
 	cacheClient  TreeCacheClient
 	schemaClient schemaClient.SchemaClientBound
 	actualOwner  string
+	// owners holds all the owners (intents) that act within the actual transaction
+	owners map[string]struct{}
 }
 
 func NewTreeContext(cc TreeCacheClient, sc schemaClient.SchemaClientBound, actualOwner string) *TreeContext {
-	return &TreeContext{
+	tc := &TreeContext{
 		cacheClient:  cc,
 		schemaClient: sc,
-		actualOwner:  actualOwner,
+		owners:       map[string]struct{}{},
 	}
+	tc.SetActualOwner(actualOwner)
+	return tc
 }
 
 // deepCopy root is required to be set manually
@@ -46,4 +50,16 @@ func (t *TreeContext) GetActualOwner() string {
 
 func (t *TreeContext) SetActualOwner(owner string) {
 	t.actualOwner = owner
+	if t.owners == nil {
+		t.owners = map[string]struct{}{}
+	}
+	if owner != "" {
+		t.owners[owner] = struct{}{}
+	}
+}
+
+// GetOwners returns all the owners that have been the actual owner so far, i.e. all the
+// intents that act within the transaction the tree is built for.
+func (t *TreeContext) GetOwners() map[string]struct{} {
+	return t.owners
 }
